@@ -10,7 +10,7 @@ namespace Exa.Session
     `none`: the state accepts the message (or it is a NOTIFICATION: closed without reply). -/
 def causeOf (st : Fsm) : Msg → Option Cause
   | .bad f => some (.fault f)
-  | .operational => some .operational
+  | .operational => if st = .established then none else some (.unexpected .operational)
   | .notification => none
   | .openOk l => if st = .opensent then none else some (.unexpected (.openOk l))
   | .openSem e => if st = .opensent then some (.sem e) else some (.unexpected (.openSem e))
@@ -19,19 +19,18 @@ def causeOf (st : Fsm) : Msg → Option Cause
   | .refresh => if st = .established then none else some (.unexpected .refresh)
 
 /-- where the unchanged code does not follow `errorClass` (findings): an OPEN in ESTABLISHED is
-    silently accepted (F31); OPERATIONAL (not negotiated) is answered 1/0 (F12, what is left of
-    it); a NOTIFICATION with a bad length is answered with a NOTIFICATION (F32). -/
+    silently accepted (F31); a NOTIFICATION with a bad length is answered with a NOTIFICATION (F32).
+    (An OPERATIONAL message whose capability was not negotiated is ignored in ESTABLISHED since the
+    decoder fix 6bb3b84; that is tolerated, `causeOf` gives no cause for it.) -/
 def Deviates (st : Fsm) : Msg → Bool
   | .openOk _ => st == .established
   | .openSem _ => st == .established
-  | .operational => true
   | .bad .notifLen => true
   | _ => false
 
 /-- what the model (= the code, by the correspondence) raises. -/
 def modelCode (st : Fsm) : Msg → Nat × Nat
   | .bad f => raised f
-  | .operational => (1, 0)
   | .openSem e => if st = .opensent then semCode e else (5, fsmSub st)
   | _ => (5, fsmSub st)
 
